@@ -651,6 +651,16 @@ def build_net_items(ci, case, wr, tr, res):
                 vs_out = True
         # transfer() tries a ladder-network shortcut on kill() when the netlist has at least 6 elements
         info['ladder_fp'] = (len(case['netlist']) >= 6) and (vs_in or vs_out or (a2 is not None and a2 == b2))
+        # ... and CircuitGraph.series_path follows a two-element branch through its middle node: fingerprint = a non-port node
+        # that joins exactly two elements once the current sources are removed
+        deg = {}
+        for e_ in sl['d']['elements']:
+            if e_.get('_owner') == 'I':
+                continue
+            for n_ in set(e_['nidx'][:2]):
+                deg[n_] = deg.get(n_, 0) + 1
+        ports_ = {sl['pi'], sl['mi'], a2, b2, -1}
+        info['ladder_series_fp'] = (len(case['netlist']) >= 6) and any(k_ >= 0 and k_ not in ports_ and v_ == 2 for k_, v_ in deg.items())
         if a2 is not None and b2 is not None and a2 == b2:
             res.count('transfer_skipped_output_nodes_merged')
         elif a2 is not None and b2 is not None and not across and x_y is not None:
@@ -744,7 +754,8 @@ def oracle(case, wr, info):
     if case['mode'] == 'net' and (not info.get('wellposed') or len(wr.get('groups', [])) > 1):
         return bad          # several signal kinds at once, unsupported class, or not well-posed at the point / at dc: no single line to test
     g = lambda k: fr(api.get(k))
-    dc = (wr.get('kind') == 'dc') or (case['mode'] == 'oneport' and case['profile'] == 'dc')
+    # a source-free circuit takes its signal kind from the load: a dc load source makes original+load a dc analysis
+    dc = (wr.get('kind') == 'dc') or (wr.get('kind') == 'none' and case['profile'] == 'dc') or (case['mode'] == 'oneport' and case['profile'] == 'dc')
     Voc, Isc, Z, Y = g('Voc'), g('Isc'), g('Z'), g('Y')
     if not dc:
         if None not in (Voc, Isc, Z) and Isc * Z != Voc:
@@ -1015,6 +1026,13 @@ def run(tier='quick', replay=None):
                     key = 'oracle:' + nm
                     if has_ic and rel and all(keys[pb].endswith(':ics-kept') for pb in rel):
                         key = keys[rel[-1]]
+                    if nm == 'transfer_route' and not info.get('ladder_fp') and info.get('ladder_series_fp') and 'H_direct' not in keys \
+                            and ('H_direct', 'main') in passed:
+                        # the documented route agrees with the Coq model, the ladder shortcut does not, and the killed netlist has a
+                        # two-element series branch (middle node of degree 2)
+                        key = 'NetlistOpsMixin.transfer:ladder-series-branch'
+                        if 'H' in keys:
+                            keys['H'] = key
                     if nm == 'transfer_route' and info.get('ladder_fp') and 'H_direct' not in keys:
                         # the two public routes disagree, the documented one agrees with the model (or is not modelled: source
                         # across the input), >= 6 elements and an independent V source across the input or output port, or the
